@@ -163,7 +163,7 @@ Lemma exchange line popt pr c st echo rest k :
 Proof.
   intros Hin Hst Hbl Hcat Hecho Hrest Hot Hpr.
   destruct (load_spec st c Hin Hst) as (L1 & L2 & L3 & L4 & L5).
-  unfold sendline, send.
+  unfold sendline, send. rewrite L5, Hbl.
   assert (A1 : any_in (blacklist (load st c)) (line ++ [CR]) = false) by (rewrite L5; exact Hbl).
   assert (A2 : cpend (load st c) = echo ++ rest) by (rewrite L1; exact Hcat).
   destruct (send_rb_exact (S (length (line ++ [CR]))) (now (io (load st c))) (line ++ [CR]) (load st c) echo rest
@@ -213,7 +213,7 @@ Theorem exec_exact_general cmd ovr P c st1 st2 sts echo1 rest1 k1 echo2 sttxt st
     blacklist c' = blacklist c.
 Proof.
   intros Hin Hpr HP Hb1 Hb2 Hw1 Hc1 He1 Hr1 Hot1 Hw2 Hc2 He2 Hp2 Hst.
-  unfold exec_model. rewrite (any_in_firstn _ SEND_SLICE _ Hb1). cbn [hd_stage tl].
+  unfold exec_model. rewrite Hb1. cbn [hd_stage tl].
   destruct (exchange cmd (option_map SLit ovr) (match ovr with Some o => o | None => P end) c st1 echo1 rest1 k1
               Hin Hw1 Hb1 Hc1 He1 Hr1 Hot1) as (c2 & c3 & X1 & X2 & Hin3 & Wr3 & Pr3 & Bl3).
   { destruct ovr; [right; reflexivity | left; auto]. }
